@@ -47,10 +47,22 @@ type dirtyRec struct {
 	frame bool
 	bound string
 	made  map[string]*Heap
+	prev  *dirtyRec // an earlier havoc of the same heap, also before its first use (per-name records only)
 }
 
 func newDirty(frame bool, bound string) *dirtyRec {
 	return &dirtyRec{frame: frame, bound: bound, made: map[string]*Heap{}}
+}
+
+// flat: the record's meaning relative to the entry heap: framed only if every
+// havoc in the chain was, and then below the earliest bound.
+func (d *dirtyRec) flat() (bool, string) {
+	fr, b := d.frame, d.bound
+	for p := d.prev; p != nil; p = p.prev {
+		fr = fr && p.frame
+		b = p.bound
+	}
+	return fr, b
 }
 
 func (s *State) clone() *State {
@@ -76,12 +88,16 @@ func combine(a, b *dirtyRec) *dirtyRec {
 	if b == nil || a == b {
 		return a
 	}
-	return newDirty(a.frame && b.frame, a.bound)
+	af, ab := a.flat()
+	bf, _ := b.flat()
+	return newDirty(af && bf, ab)
 }
 
 func (s *State) markDirty(name string, r *dirtyRec) {
 	if old, ok := s.dirty[name]; ok && old != r {
-		s.dirty[name] = newDirty(old.frame && r.frame, old.bound)
+		// a second havoc before the first use: the version after it is framed against the
+		// version after the first one (which a cloned state may already have materialised)
+		s.dirty[name] = &dirtyRec{frame: r.frame, bound: r.bound, made: map[string]*Heap{}, prev: old}
 		return
 	}
 	s.dirty[name] = r
@@ -127,22 +143,33 @@ func (e *Enc) heapS(st *State, name, srt string, indexed bool) *Heap {
 	h := e.entryHeapS(name, srt, indexed)
 	d := combine(st.dirty[name], st.allDirty)
 	if d != nil {
-		if mh, ok := d.made[name]; ok {
-			h = mh
-		} else {
-			nh := e.newHeapVersion(h, "d")
-			if d.frame {
-				nh.Prev, nh.Bound, nh.IsFrm = h, d.bound, true
-			}
-			d.made[name] = nh
+		if _, ok := d.made[name]; !ok {
 			if st.dirty[name] != nil && st.allDirty != nil && st.dirty[name] != st.allDirty {
 				st.dirty[name] = d
 			}
-			h = nh
 		}
+		h = e.materialise(d, name, h)
 	}
 	st.heaps[name] = h
 	return h
+}
+
+// materialise: the heap version described by a dirty record (shared by every
+// state that holds the record).
+func (e *Enc) materialise(d *dirtyRec, name string, entry *Heap) *Heap {
+	if mh, ok := d.made[name]; ok {
+		return mh
+	}
+	base := entry
+	if d.prev != nil {
+		base = e.materialise(d.prev, name, entry)
+	}
+	nh := e.newHeapVersion(base, "d")
+	if d.frame {
+		nh.Prev, nh.Bound, nh.IsFrm = base, d.bound, true
+	}
+	d.made[name] = nh
+	return nh
 }
 
 func (e *Enc) entryHeapS(name, srt string, indexed bool) *Heap {
@@ -609,8 +636,15 @@ func (e *Enc) assumeTypeInv(v Val, elem types.Type) {
 	if !ok {
 		return
 	}
-	invs := e.w.contracts.TypeInvs[n.Obj().Name()]
-	if len(invs) == 0 || n.Obj().Pkg() == nil || n.Obj().Pkg().Path() != repoPkgPath {
+	tname := n.Obj().Name()
+	if n.Obj().Pkg() != nil && n.Obj().Pkg().Path() != repoPkgPath {
+		if !transparentLibStructs[n.Obj().Pkg().Path()+"."+n.Obj().Name()] {
+			return
+		}
+		tname = n.Obj().Pkg().Name() + "." + n.Obj().Name() // trusted invariant of a library struct read field by field
+	}
+	invs := e.w.contracts.TypeInvs[tname]
+	if len(invs) == 0 || n.Obj().Pkg() == nil {
 		return
 	}
 	key := "tinv:" + n.Obj().Name() + "@" + v.T
@@ -627,7 +661,25 @@ func (e *Enc) assumeTypeInv(v Val, elem types.Type) {
 	for _, c := range invs {
 		t := e.safeEvalHyp(c, env)
 		e.assume(t)
-		e.usedTypeInvs[n.Obj().Name()+": "+c.Text] = true
+		e.usedTypeInvs[tname+": "+c.Text] = true
+	}
+	e.curReach = saveReach
+}
+
+// assumeLibInv: the trusted invariant of a transparent library struct for an
+// object a library call has just returned (current state, not the entry state).
+func (e *Enc) assumeLibInv(st *State, v Val, elem types.Type) {
+	n, ok := elem.(*types.Named)
+	if !ok || n.Obj().Pkg() == nil || !transparentLibStructs[n.Obj().Pkg().Path()+"."+n.Obj().Name()] {
+		return
+	}
+	tname := n.Obj().Pkg().Name() + "." + n.Obj().Name()
+	env := &SpecEnv{vars: map[string]Val{"self": v}, st: st}
+	saveReach := e.curReach
+	e.curReach = and(saveReach, fmt.Sprintf("(not (= %s 0))", v.T))
+	for _, c := range e.w.contracts.TypeInvs[tname] {
+		e.assume(e.safeEvalHyp(c, env))
+		e.usedTypeInvs[tname+" (library result): "+c.Text] = true
 	}
 	e.curReach = saveReach
 }
